@@ -385,19 +385,19 @@ def main():
     types = tuple(get_components(args.types, "insights.core.plugins"))
 
     if args.pkg_query:
-        pred = taglang.parse(args.pkg_query)
+        pkg_pred = taglang.parse(args.pkg_query)
 
         def pkg_query(c):
-            return pred([dr.get_module_name(c)])
+            return pkg_pred([dr.get_module_name(c)])
     else:
         def pkg_query(c):
             return True
 
     if args.tags:
-        pred = taglang.parse(args.tags)
+        tags_pred = taglang.parse(args.tags)
 
         def tags_query(c):
-            return pred(dr.get_tags(c))
+            return tags_pred(dr.get_tags(c))
     else:
         def tags_query(c):
             return True
